@@ -50,7 +50,7 @@ func (g *c19Gen) stmt(indent int, s string) int {
 func (g *c19Gen) block(indent int, n int, inFunc bool) {
 	for i := 0; i < n && g.budget > 0; i++ {
 		g.budget--
-		k := g.tape.Choose(13)
+		k := g.tape.Choose(14)
 		if g.depth >= 2 && (k == 1 || k == 2 || k == 3) {
 			k = 0
 		}
@@ -103,6 +103,24 @@ func (g *c19Gen) block(indent int, n int, inFunc bool) {
 			g.stmt(indent, "x = rec(x%4) + x")
 		case 12:
 			g.stmt(indent, "x = spawn(x)")
+		case 13:
+			// select used sequentially: buffered channel, default clause
+			in := strings.Repeat("\t", indent)
+			sc := fmt.Sprintf("sc%d", g.line+1)
+			g.stmt(indent, sc+" := make(chan int, 1)")
+			g.stmt(indent, "if x%2 == 0 {")
+			g.stmt(indent+1, sc+" <- x % 7")
+			g.raw(in + "}")
+			g.stmt(indent, "select {")
+			g.raw(in + "case v := <-" + sc + ":")
+			g.stmt(indent+1, "x += v + 1")
+			g.raw(in + "default:")
+			g.stmt(indent+1, "x += 2")
+			g.raw(in + "}")
+			g.stmt(indent, "select {")
+			g.raw(in + "case " + sc + " <- x:")
+			g.stmt(indent+1, "x += len("+sc+")")
+			g.raw(in + "}")
 		}
 	}
 }
